@@ -27,16 +27,21 @@ KS = [None, 1, 2, 3, 5]
 
 
 
-def ids_owned(lst, ser):
-    """like adapter.ids; the result list is the CALLER's: an empty one is extended in place afterwards (an application that
-    accumulates results, `found = a.find_all(x); found += b.find_all(y)`), and no later result may show what a caller added"""
-    from nutree import Node as _Node
-
-    if any(not isinstance(x, _Node) for x in lst):
-        raise ValueError(f"a result list that an earlier caller had extended was handed out again: {lst!r}")
+def ids_owned(thunk, ser):
+    """like adapter.ids(thunk(), ser); the result list is the CALLER's: an empty one is extended in place (an application that
+    accumulates results, `found = a.find_all(x); found += b.find_all(y)`) and the query is asked again - it must not show what the
+    caller added (a shared empty list handed out to everybody, or the library's own list).  The addition is taken back."""
+    lst = thunk()
     r = adapter.ids(lst, ser)
     if isinstance(lst, list) and not lst:
         lst.append("added by the caller")
+        try:
+            again = thunk()
+            bad = isinstance(again, list) and "added by the caller" in again
+        finally:
+            lst.clear()
+        if bad:
+            raise ValueError("an empty result is not the caller's own list: what the caller appended to it shows up in the next result")
     return r
 
 
@@ -96,9 +101,9 @@ def check_tree(ctx, out, spec, tag, rot, levelorder=False, tree=None):
             for k in ks:
                 for add_self in ((False, True) if path else (False,)):
                     if path:
-                        impl = g(lambda: ids_owned(start.find_all(match=marg, add_self=add_self, max_results=k), ser))
+                        impl = g(lambda: ids_owned(lambda: start.find_all(match=marg, add_self=add_self, max_results=k), ser))
                     else:
-                        impl = g(lambda: ids_owned(tree.find_all(match=marg, max_results=k), ser))
+                        impl = g(lambda: ids_owned(lambda: tree.find_all(match=marg, max_results=k), ser))
                     case = dict(q="nodeMatch", spec=spec, path=list(path), pat=[kind, repr(arg)], k=k, self=add_self, levelorder=levelorder)
                     reqs.append({"op": "search", "q": "nodeMatch", "t": tj, "path": list(path), "m": tbl, "k": k, "self": add_self})
                     pend.append((case, impl, f"find_all(match={arg!r}, max_results={k}, add_self={add_self}) at {list(path)}"))
@@ -114,7 +119,7 @@ def check_tree(ctx, out, spec, tag, rot, levelorder=False, tree=None):
             for did_real in sorted({n.data_id for n in nodes}, key=repr)[:4]:
                 d = pool.canon_did(did_real)
                 for add_self in (False, True):
-                    impl = g(lambda: [ids_owned(start.find_all(data_id=did_real, add_self=add_self), ser), i(start.find_first(data_id=did_real))])
+                    impl = g(lambda: [ids_owned(lambda: start.find_all(data_id=did_real, add_self=add_self), ser), i(start.find_first(data_id=did_real))])
                     case = dict(q="nodeId", spec=spec, path=list(path), did=d, self=add_self, levelorder=levelorder)
                     reqs.append({"op": "search", "q": "nodeId", "t": tj, "path": list(path), "did": d, "self": add_self})
                     pend.append((case, impl, f"node.find_all(data_id={d!r}, add_self={add_self}) at {list(path)}"))
@@ -128,7 +133,7 @@ def check_tree(ctx, out, spec, tag, rot, levelorder=False, tree=None):
             for o in objs[:3]:
                 d = pool.canon_did(tree.calc_data_id(o))
                 for add_self in (False, True):
-                    impl = g(lambda: [ids_owned(start.find_all(o, add_self=add_self), ser), i(start.find_first(o))])
+                    impl = g(lambda: [ids_owned(lambda: start.find_all(o, add_self=add_self), ser), i(start.find_first(o))])
                     case = dict(q="nodeId", spec=spec, path=list(path), did=d, self=add_self, by="data", levelorder=levelorder)
                     reqs.append({"op": "search", "q": "nodeId", "t": tj, "path": list(path), "did": d, "self": add_self})
                     pend.append((case, impl, f"node.find_all({o!r}, add_self={add_self}) at {list(path)}"))
@@ -140,7 +145,7 @@ def check_tree(ctx, out, spec, tag, rot, levelorder=False, tree=None):
         if n.data_id not in dids:
             dids.append(n.data_id)
     try:
-        by_data = [[pool.canon_did(d), ids_owned(tree.find_all(data_id=d), ser)] for d in dids]
+        by_data = [[pool.canon_did(d), ids_owned(lambda: tree.find_all(data_id=d), ser)] for d in dids]
     except ValueError as e:
         out.fail(dict(q="treeId", spec=spec, did=None, k=None, levelorder=levelorder), f"tree.find_all(data_id=...): {e}")
         return
@@ -162,9 +167,9 @@ def check_tree(ctx, out, spec, tag, rot, levelorder=False, tree=None):
                 real = {v: k_ for k_, v in pool.hash_canon.items()}.get(dc, dc)
             else:
                 real = d_real
-            impl = g(lambda: [ids_owned(tree.find_all(data_id=real, max_results=k), ser), i(tree.find_first(data_id=real)), None])
+            impl = g(lambda: [ids_owned(lambda: tree.find_all(data_id=real, max_results=k), ser), i(tree.find_first(data_id=real)), None])
             if isinstance(impl, list):
-                impl[2] = g(lambda: bool(ids_owned(tree.find_all(data_id=real), ser)))
+                impl[2] = g(lambda: bool(ids_owned(lambda: tree.find_all(data_id=real), ser)))
             case = dict(q="treeId", spec=spec, did=dc, k=k, levelorder=levelorder)
             reqs.append({"op": "search", "q": "treeId", "t": tj, "byData": by_data, "did": dc, "k": k})
             pend.append((case, impl, f"tree.find_all(data_id={dc!r}, max_results={k})"))
@@ -174,7 +179,7 @@ def check_tree(ctx, out, spec, tag, rot, levelorder=False, tree=None):
         o = pool.objs[a]
         dc = pool.canon_did(tree.calc_data_id(o))
         for k in (None, 1, 2):
-            impl = g(lambda: [ids_owned(tree.find_all(o, max_results=k), ser), i(tree.find_first(o)), o in tree])
+            impl = g(lambda: [ids_owned(lambda: tree.find_all(o, max_results=k), ser), i(tree.find_first(o)), o in tree])
             case = dict(q="treeId", spec=spec, data=a, did=dc, k=k, levelorder=levelorder)
             reqs.append({"op": "search", "q": "treeId", "t": tj, "byData": by_data, "did": dc, "k": k})
             pend.append((case, impl, f"tree.find_all({o!r}, max_results={k}) / find_first / in"))
